@@ -15,7 +15,7 @@ Theorem C10_tree_roundtrip : forall l, wfl l = true -> readc (showc l) = Some l.
 Proof. exact read_show. Qed.
 Print Assumptions C10_tree_roundtrip.
 
-(* FULL STATEMENT (false of the faithful model, see the four refutations below):
+(* FULL STATEMENT (false of the faithful model, see the refutations below):
      forall K P r t, clean_rule r = true -> convc K P r = Ok t ->
        exists t', readc (showc t) = Some t' /\ expected K P r = Ok (normalize (first_id r) t')
    proved part: for every backend variant K (precedence, templates present or absent, timespan mode,
@@ -24,10 +24,10 @@ Print Assumptions C10_tree_roundtrip.
    of queries each, any aliases / group-by / fields / condition) in the domain
      dom = all names bracket-free
            /\ alias entries and rule references that mean the same rule are spelled the same
-           /\ (the backend finalises sub-queries \/ no referenced rule is a correlation rule)
            /\ every conditioned pipeline item applies to all referenced rules or to none,
    the emitted text reads back to a tree that equals the specification's tree: every referenced
-   rule's own queries in reference order with name-or-id tags, per-rule alias normalisations with
+   rule's own queries (plain or correlation rule alike: finalised iff the backend opts in) in
+   reference order with name-or-id tags, per-rule alias normalisations with
    renamed targets, time span, group-by, fields, operator, count, field, percentile, rule ids. *)
 Theorem C10_readback_partial : forall K P r t, dom K P r = true -> convc K P r = Ok t ->
   exists t', readc (showc t) = Some t' /\ expected K P r = Ok (normalize (first_id r) t').
@@ -38,11 +38,6 @@ Theorem C10_alias_other_identifier_refuted :
   exists K P r t, clean_rule r = true /\ convc K P r = Ok t /\ expected K P r <> Ok (normalize (first_id r) t).
 Proof. exact alias_other_identifier_refuted. Qed.
 Print Assumptions C10_alias_other_identifier_refuted.
-
-Theorem C10_nested_finalised_refuted :
-  exists K P r t, clean_rule r = true /\ convc K P r = Ok t /\ expected K P r <> Ok (normalize (first_id r) t).
-Proof. exact nested_finalised_refuted. Qed.
-Print Assumptions C10_nested_finalised_refuted.
 
 Theorem C10_conditioned_renaming_refuted :
   exists K P r t, clean_rule r = true /\ convc K P r = Ok t /\ expected K P r <> Ok (normalize (first_id r) t).
@@ -125,8 +120,10 @@ Proof. exact mapping_consistent. Qed.
 Print Assumptions C10_mapping_consistent.
 
 (* non-vacuity: a two-rule correlation with aliases, group-by and a renaming pipeline lies in the
-   domain and converts; so does an extended condition over two rules *)
+   domain and converts; so do an extended condition over two rules and a correlation rule that
+   references another correlation rule on a backend without sub-query finalisation *)
 Example C10_premises_inhabited :
   dom K0 P_good r_good = true /\ (exists t, convc K0 P_good r_good = Ok t) /\
-  dom K0 [] r_hex = true /\ cfg_ok (k_cfg K0) = true.
+  dom K0 [] r_hex = true /\ cfg_ok (k_cfg K0) = true /\
+  dom K0 [] r_nested = true /\ (exists t, convc K0 [] r_nested = Ok t).
 Proof. exact premises_inhabited. Qed.
